@@ -79,7 +79,7 @@ def gen_cases(tier, seed):
                "seed": env.derive_seed(seed, ID, "n5", j), "nested": j % 3 == 0}
 
 
-DIRECTED = ["B", "D", "E", "G", "U", "II", "X"]       # regression probes (findings/witnesses.py)
+DIRECTED = ["B", "D", "E", "G", "U", "II", "X", "JJ"]       # regression probes (findings/witnesses.py)
 
 
 def mk_cell_op(opname, space, name, k, rnd):
